@@ -112,10 +112,7 @@ theorem reads_sub_effE : (e : Expr) â†’ FragE e = true â†’ (fns : List FnCtx) â†
   | .comp .., hf, _, _, _ => by simp [FragE] at hf
   | .comprehension .., hf, _, _, _ => by simp [FragE] at hf
   | .arguments .., hf, _, _, _ => by simp [FragE] at hf
-  | .arg _ n an, hf, fns, aug, anno => by
-      simp only [FragE, List.isEmpty_iff] at hf
-      subst hf
-      simp [readsE, readsEs]
+  | .arg .., hf, _, _, _ => by simp [FragE] at hf
   | .withitem _ c v, hf, fns, aug, anno => by
       simp only [FragE, Bool.and_eq_true] at hf
       intro x hx
@@ -236,10 +233,7 @@ theorem writes_sub_effE : (e : Expr) â†’ FragE e = true â†’ (fns : List FnCtx) â
   | .comp .., hf, _, _, _ => by simp [FragE] at hf
   | .comprehension .., hf, _, _, _ => by simp [FragE] at hf
   | .arguments .., hf, _, _, _ => by simp [FragE] at hf
-  | .arg _ n an, hf, fns, aug, anno => by
-      simp only [FragE, List.isEmpty_iff] at hf
-      subst hf
-      simp [writesE, writesEs]
+  | .arg .., hf, _, _, _ => by simp [FragE] at hf
   | .withitem _ c v, hf, fns, aug, anno => by
       simp only [FragE, Bool.and_eq_true] at hf
       intro x hx
